@@ -22,6 +22,12 @@ C = {
  "C14": ("model_checking", "5.3,6/C14", TV,
    "RawCopyF + RawVerbatim: raw copies (first/middle/last/only, renamed or not) of entries from this writer (every method/level) and from the independent builder (methods the crate cannot decode, four data-descriptor styles, forced ZIP64, DOS/absent attributes, CP437 names) interleaved with ordinary entries, into sinks that also short-write; the trace spec requires identical raw bytes (CRC of the data region from the independent lexer and from by_index_raw), equal method/CRC/sizes/time words/low nine permission bits and unchanged neighbours.",
    "ZIP64-sized sources are exercised under C08"),
+ "C03": ("model_checking", "5.4,6/C03", "TLA+ spec ZipOpen.tla (LocateFaithful model-checked in MC_Open) + trace validation of the real reader's view against ZipOpen!View of an independently lexed layout (Trace_Open.tla)",
+   "MC_Open proves LocateFaithful (end-record search window, locator probe relative to the end of file, ZIP64 forward search, prefix arithmetic) over all abstract tails at scaled limits; every realisable tail shape enumerated by TLC and seeded random archives from an independent producer (all data-descriptor styles, forced ZIP64 subsets in either position, differing extras, comments, made-by systems, attribute words, CP437/UTF-8/invalid names, duplicates, reordered directory, gaps, prefix, garbage, unsupported methods) and from CPython are opened with the real reader; archive view, every accessor, by-name (last duplicate wins), absent/out-of-range lookups, raw and decoded content must equal ZipOpen!View(lexed layout).",
+   "payloads avoid embedded signatures; counts/sizes at the 16/32-bit limits are realised under C08"),
+ "C19": ("model_checking", "5.9,6/C19", "TLA+ spec Encoding.tla (Cp437Table data, UTF-8 decoder in TLA+; laws model-checked in MC_Encoding) + trace validation (Trace_Open.tla RDecode, Trace_Writer.tla)",
+   "Exhaustive over 256 byte values x flag x position x {name, file comment} plus multi-byte valid/invalid UTF-8 and random strings: the trace spec itself computes the required decoded string (CP437 table taken from CPython's codec, UTF-8 by a decoder written in TLA+) and compares code points; the raw-name accessor must return the stored bytes; writer side through Trace_Writer (flag iff non-ASCII, same bytes, same string back).",
+   "replacement decoding of invalid UTF-8 is taken from std (the documented behaviour); TLA+-decided strings are <= 512 bytes"),
 }
 checks = []
 for pid in sorted(C):
